@@ -64,7 +64,7 @@ func safely(f func()) (panicked interface{}) {
 
 // c16: dynamic half of C16 — the parsed tree is bit-for-bit what it was after any mix of the four API paths.
 func runC16(res *Result, tier string, seed int64, replay string) {
-	res.Rule = "documents = all testdata fixtures + explicit documents (head-reading; invalid attribute after valid ones; children in orders a renderer might normalise; author HTML in every content slot with attribute values that need escaping or re-quoting; every component × every attribute with white space around the value / upper case) + seeded grammar documents (rich generator: head attributes, classes, fonts, inline styles, all leaf kinds); each is parsed once (RenderWithAST), deep-snapshotted (values, slice len/cap, backing-array identity, spare capacity), then rendered again through RenderFromAST, NewFromAST+RenderComponentString, RenderFromAST(debug) and twice through Render(WithCache) and re-snapshotted; non-trivial = document with at least one section; distinct by source text"
+	res.Rule = "documents = all testdata fixtures + explicit documents (head-reading; invalid attribute after valid ones; children in orders a renderer might normalise; children a component does not render in front of and between the ones it does; author HTML in every content slot with attribute values that need escaping or re-quoting; every component × every attribute with white space around the value / upper case) + seeded grammar documents (rich generator: head attributes, classes, fonts, inline styles, all leaf kinds); each is parsed once (RenderWithAST), deep-snapshotted (values, slice len/cap, backing-array identity, spare capacity), then rendered again through RenderFromAST, NewFromAST+RenderComponentString, RenderFromAST(debug) and twice through Render(WithCache) and re-snapshotted; non-trivial = document with at least one section; distinct by source text"
 	var docs []struct{ name, src string }
 	for _, f := range loadFixtures() {
 		docs = append(docs, struct{ name, src string }{"fixture:" + f.Name, f.MJML})
@@ -73,6 +73,15 @@ func runC16(res *Result, tier string, seed int64, replay string) {
 	// attribute after valid ones, defaults and inline rules the renderer reads while rendering
 	docs = append(docs, struct{ name, src string }{"explicit:head-reading", cacheDocs[headReadingDoc]})
 	docs = append(docs, struct{ name, src string }{"explicit:invalid-after-valid", `<mjml><mj-body><mj-section padding="1px" bogus-a="x" full-width="full-width" bogus-b="y"><mj-column width="50%" nope="1"><mj-image src="i.png" alt="a" href="u" zzz="1" title="t"/></mj-column></mj-section></mj-body></mjml>`})
+	// children a component does not render, in front of and between the ones it does: a child list "filtered" in place
+	// (kept children written over the skipped ones) shows in the tree
+	docs = append(docs, struct{ name, src string }{"explicit:skipped-children", `<mjml><mj-body><mj-section><mj-column>` +
+		`<mj-carousel><mj-divider/><mj-carousel-image src="a.png"/><mj-text>t</mj-text><mj-carousel-image src="b.png"/></mj-carousel>` +
+		`<mj-carousel><mj-raw><i>r</i></mj-raw><mj-carousel-image src="c.png"/><mj-carousel-image src="d.png"/></mj-carousel>` +
+		`<mj-navbar><mj-text>x</mj-text><mj-navbar-link href="/a">A</mj-navbar-link><mj-image src="i.png"/><mj-navbar-link href="/b">B</mj-navbar-link></mj-navbar>` +
+		`<mj-social><mj-divider/><mj-social-element name="facebook" href="h">F</mj-social-element><mj-text>y</mj-text><mj-social-element name="github" href="g">G</mj-social-element></mj-social>` +
+		`<mj-accordion><mj-text>z</mj-text><mj-accordion-element><mj-image src="j.png"/><mj-accordion-title>T</mj-accordion-title><mj-divider/><mj-accordion-text>X</mj-accordion-text></mj-accordion-element></mj-accordion>` +
+		`</mj-column><mj-text>stray text in a section</mj-text><mj-column><mj-text>c2</mj-text></mj-column></mj-section><mj-text>stray text in the body</mj-text></mj-body></mjml>`})
 	// children written in an order a renderer might "normalise": text before title, several titles, links and images with raw
 	// content between them, duplicated and out-of-order social networks, head elements after the body
 	docs = append(docs, struct{ name, src string }{"explicit:child-orders", `<mjml><mj-body><mj-section><mj-column>` +
